@@ -80,6 +80,13 @@ def run(f_on, f_off, nonce, f_allfeat=None, positive=None):
             p2i = {f.where for f in c2.findings if f.key.endswith('|ptr2int')}
             need.append(('pointer transmuted to an integer', any('address_of' in w for w in p2i)))
             need.append(('compiler-inserted pointer check not reported', not any('through_raw' in w for w in p2i)))
+            tr = [1 for b in pc.bodies for bb, t in b.calls() if src_rules.TRUNCATING.search(mirlib.callee_decl_path(t) or mirlib.callee_path(t) or '') and 'Iterator' in (mirlib.callee_decl_path(t) or mirlib.callee_path(t) or '')]
+            need.append(('truncating iterator adaptor', bool(tr)))
+            c3 = src_rules.Ctx()
+            for b in pc.bodies:
+                if b.path.endswith('first_at_least'):
+                    src_rules.search_predicates(c3, pc, b, 'B-GUARD-RM', ['C12'], 'fixture')
+            need.append(('search predicate with an ordering comparison', any('predicate' in f.key for f in c3.findings)))
             hq = [1 for b in pc.bodies for bb, t in b.calls() if mirlib.callee_path(t) in src_rules.HOST_QUERIES]
             need.append(('host layout query', bool(hq)))
             for what, ok in need:
